@@ -794,10 +794,10 @@ class Generator:
         optional trailing expression) and the usual //@sig ... sections.  The statements between
         the first line matching `from` and the first later line matching `to` (inclusive) are
         copied verbatim into the synthetic function."""
-        m = re.match(r"(.*?)\s+as:\s*(\w+)\s+from:\s*/(.*?)/\s+to:\s*/(.*?)/\s*(props:.*)?$", arg)
+        m = re.match(r"(.*?)\s+as:\s*(\w+)\s+from:\s*/(.*?)/\s+(to|until):\s*/(.*?)/\s*(props:.*)?$", arg)
         if not m:
             raise SpecError("%s:%d: bad //@slice directive" % (rel, lineno))
-        target, name, rfrom, rto, propstr = m.groups()
+        target, name, rfrom, to_kind, rto, propstr = m.groups()
         src, file, path, opts = self.locate(target.strip())
         props = (propstr or "").replace("props:", "").split()
         if not path[-1].startswith("fn "):
@@ -824,6 +824,16 @@ class Generator:
                 break
         if pos_from is None or pos_to is None:
             raise LostAnchor("%s: slice anchors /%s/ .. /%s/ not found in %s" % (file, rfrom, rto, path[-1]))
+        if to_kind == "until":
+            # the matching line belongs to the first statement AFTER the slice: cut at the start of
+            # that statement (token following the previous `;`, `{` or `}`)
+            k = next(i for i, t in enumerate(s) if t.start >= pos_to) - 1
+            # pos_to currently points after the matching line; find a token on that line
+            line_start = text.rfind("\n", 0, pos_to - 1) + 1
+            k = next(i for i, t in enumerate(s) if t.start >= line_start)
+            while k > 0 and not (s[k - 1].kind == PUNCT and s[k - 1].text in (";", "{", "}")):
+                k -= 1
+            pos_to = text.rfind("\n", 0, s[k].start) + 1
         # token range of the slice
         lo = next(i for i, t in enumerate(s) if t.start >= pos_from)
         hi = next((i for i, t in enumerate(s) if t.start >= pos_to), len(s))
